@@ -594,10 +594,14 @@ func childMain() {
 	}
 	done := make(chan struct{})
 	go func() { wg.Wait(); close(done) }()
+	maxMs := sc.MaxMs
+	if maxMs <= 0 {
+		maxMs = 60000
+	}
 	select {
 	case <-done:
-	case <-time.After(60 * time.Second):
-		r.add(Event{Kind: "child_timeout", Note: "actors did not finish within 60 s"})
+	case <-time.After(time.Duration(maxMs) * time.Millisecond):
+		r.add(Event{Kind: "child_timeout", Note: fmt.Sprintf("actors did not finish within %d ms", maxMs)})
 	}
 	// hang up everything that is still open, then let the server settle: every accepted connection leaves
 	for _, t := range terms {
